@@ -393,16 +393,31 @@ pub fn run(tier: Tier, replay: Option<Value>) -> i32 {
                 continue;
             }
         }
-      for pass in 0..3 {
+      for pass in 0..4 {
         let replay_fault = replay.as_ref().and_then(|r| r.get("backup_fault")).is_some();
         let replay_break = replay.as_ref().and_then(|r| r.get("break_lock")).is_some();
-        if replay.is_some() && ((pass == 1) != replay_fault || (pass == 2) != replay_break) {
+        let replay_empty = replay.as_ref().and_then(|r| r.get("no_versions")).is_some();
+        if replay.is_some() && ((pass == 1) != replay_fault || (pass == 2) != replay_break || (pass == 3) != replay_empty) {
             continue;
         }
         if pass >= 1 && replay.is_none() && !(case == 0 || tier == Tier::Thorough) {
             continue;
         }
         let mut sc = build(run.seed, case, "c06");
+        if pass == 3 {
+            // an archive with NO version left but all the blocks still there (every version was
+            // removed and the removal was killed before the blocks went): the collector's first
+            // look finds no band at all
+            let ids: Vec<u32> = sc.world.raw(false).bands.keys().copied().collect();
+            for id in ids {
+                let _ = std::fs::remove_dir_all(sc.world.arch.join(fmt06::band_dirname(id)));
+            }
+            sc.world.sources.clear();
+            sc.garbage = sc.world.raw(true).blocks.keys().cloned().collect();
+            sc.delete = vec![];
+            sc.desc = format!("no versions, {} garbage blocks, B = gc", sc.garbage.len());
+            run.count("scenarios_without_any_version", 1);
+        }
         if pass == 2 {
             // the collector is told to break the lock (there is none to break): it must still
             // refuse while the newest version is incomplete, like one that was not told so
@@ -486,6 +501,10 @@ pub fn run(tier: Tier, replay: Option<Value>) -> i32 {
                             replay["break_lock"] = json!(true);
                             run.count("schedules_run_with_break_lock", 1);
                         }
+                        if pass == 3 {
+                            replay["no_versions"] = json!(true);
+                            run.count("schedules_run_on_an_archive_without_versions", 1);
+                        }
                         judge(&run, &arc_sc, plan, &o, &replay);
                         crate::scratch::rm(&o.arch);
                     }
@@ -496,9 +515,9 @@ pub fn run(tier: Tier, replay: Option<Value>) -> i32 {
     }
     let _ = Path::new("");
     run.finish(
-        "actors A = backup(source) and B = gc, delete of the oldest version, or delete of the newest version (the backup's basis), on archives holding a complete version plus garbage blocks (a large-file block and a combined block left by a hand-removed band) whose content reappears in A's source; every storage operation of either actor is parked until a deterministic scheduler grants it (the scheduler only chooses when both actors are settled). Schedules: all with <= 1 preemption (every start offset of either actor, every switch point), a grid of 2-preemption schedules (every pair in the thorough tier), random schedules with 3-5 switches, and 3-preemption schedules aimed at the operations where the actors look at each other (lock file, root listing, band directory, block directory, first removals, hunk and tail writes): every triple (X stops before its a1-th operation, Y before its b1-th, X before its a2-th) over those positions, 1500 sampled in the quick tier. For the first scenario (every scenario in the thorough tier) all schedules up to two preemptions are run once more with one storage fault added: the backup's second look for the lock (the root listing after its BANDHEAD write) fails; and once more with the collector running with the break_lock option although there is no lock to break. When both have finished: every version with a tail must restore exactly to the tree it was made from and no complete band may reference a removed block. Distinct = distinct grant sequences.",
+        "actors A = backup(source) and B = gc, delete of the oldest version, or delete of the newest version (the backup's basis), on archives holding a complete version plus garbage blocks (a large-file block and a combined block left by a hand-removed band) whose content reappears in A's source; every storage operation of either actor is parked until a deterministic scheduler grants it (the scheduler only chooses when both actors are settled). Schedules: all with <= 1 preemption (every start offset of either actor, every switch point), a grid of 2-preemption schedules (every pair in the thorough tier), random schedules with 3-5 switches, and 3-preemption schedules aimed at the operations where the actors look at each other (lock file, root listing, band directory, block directory, first removals, hunk and tail writes): every triple (X stops before its a1-th operation, Y before its b1-th, X before its a2-th) over those positions, 1500 sampled in the quick tier. For the first scenario (every scenario in the thorough tier) all schedules up to two preemptions are run once more with one storage fault added: the backup's second look for the lock (the root listing after its BANDHEAD write) fails; and once more with the collector running with the break_lock option although there is no lock to break; and once more on the archive with every version directory removed and all blocks left (no version, only garbage). When both have finished: every version with a tail must restore exactly to the tree it was made from and no complete band may reference a removed block. Distinct = distinct grant sequences.",
         &["granularity is one storage operation; operations of parallel listing tasks of one actor are granted in canonical order", "interleavings beyond the explored preemption bound are sampled, not enumerated"],
         Some(false),
-        &[("schedules_run", 50), ("schedules_backup_references_former_garbage", 5), ("complete_versions_restored", 100), ("schedules_run_with_a_fault_on_the_backups_lock_recheck", 100), ("schedules_run_with_break_lock", 100)],
+        &[("schedules_run", 50), ("schedules_backup_references_former_garbage", 5), ("complete_versions_restored", 100), ("schedules_run_with_a_fault_on_the_backups_lock_recheck", 100), ("schedules_run_with_break_lock", 100), ("schedules_run_on_an_archive_without_versions", 100)],
     )
 }
